@@ -269,7 +269,20 @@ func (fr *frame) symCond(v value, pos token.Pos) bool {
 	case bool:
 		return x
 	case SymBool:
-		return fr.i.eng.Branch(x.T, fr.i.prog.Fset.Position(pos).String())
+		label := fr.fn.String()
+		if pos.IsValid() {
+			label += " @" + fr.i.prog.Fset.Position(pos).String()
+		} else if fr.block != nil {
+			label += fmt.Sprintf(" block %d", fr.block.Index)
+			// position of the nearest preceding instruction with one
+			for k := len(fr.block.Instrs) - 1; k >= 0; k-- {
+				if p := fr.block.Instrs[k].Pos(); p.IsValid() {
+					label += " @" + fr.i.prog.Fset.Position(p).String()
+					break
+				}
+			}
+		}
+		return fr.i.eng.Branch(x.T, label)
 	}
 	panic(fmt.Sprintf("If on %T", v))
 }
